@@ -15,7 +15,7 @@ Your task: introduce a realistic regression. Make a small change to the library 
 
 Build and test with a private target directory inside the worktree (it is gitignored; do NOT share target directories with other jobs) (builds take a few minutes; the machine is busy, be patient):
   cd {dir} && CARGO_TARGET_DIR={dir}/target CARGO_NET_OFFLINE=true cargo nextest run --workspace --no-fail-fast --offline --test-threads 6 2>&1 | tail -30
-One pre-existing failure, peer_connection::tests::reinvite_answer_audio_codecs_follow_remote_offer_subset, is expected with or without your change; every other test must pass with your change (a test that is flaky under load may be re-run alone with `cargo nextest run ... <filter>`).
+Every test must pass with your change (a test that is flaky under load may be re-run alone with `cargo nextest run ... <filter>`).
 
 Then write a demonstration that FAILS with your change and PASSES without it: a new integration test file {dir}/tests/seeded_demo.rs (preferred; it can use only the crate's public API and its dev-dependencies) or a small example. Verify both directions yourself (e.g. `git diff -- src/ > patch.diff; git checkout -- src/; <run demo, expect pass>; git apply patch.diff; <run demo, expect fail>`). The demonstration may need to construct the specific condition (e.g. an in-process lossy relay between two endpoints, two threads, a crafted input).
 
